@@ -43,7 +43,7 @@ def _group_of(expr) -> str | None:
 
 def run(repo: Repo) -> Result:
     res = Result(PID)
-    res.rules = ["C10-TRAIL", "C10-LEAD", "C10-RAW", "C10-SILENT", "C10-TEXT"]
+    res.rules = ["C10-BLANK", "C10-TRAIL", "C10-LEAD", "C10-RAW", "C10-SILENT", "C10-TEXT"]
     res.explanation = "agreement between the lexer's regex alternatives (parsed, not matched) and the branches of _tokenize_template; write-nothing / write-verbatim rules for comment and content nodes"
     res.assumptions = ["regex alternation-order semantics for overlapping alternatives are not decided"]
     lm = LexModel(repo)
@@ -288,6 +288,15 @@ def run(repo: Repo) -> Result:
     if not (len(rets) == 1 and isinstance(rets[0].value, ast.Call) and len(rets[0].value.args) == 2 and text(rets[0].value.args[1]) == "token.value"):
         res.add("C10-TEXT", lp.qual, "token-value", "Literal.parse must build the content node from token.value unchanged", lp.file, lp.line)
     res.stats.update(rule_sets=len(lm.rulesets), alternatives=sorted({a.kind for rs in lm.rulesets for a in rs.alts}), kind_branches=len(branches))
+    # ---- C10-BLANK ------------------------------------------------------------------
+    # "text outside markup is output verbatim" also inside blocks: blank-block suppression drops
+    # the whole output of a block whose nodes all claim to be blank, so every claim must be sound
+    # (sa/engines/blank.py): text nodes are blank iff whitespace, nodes that write computed values
+    # or foreign nodes are never blank, containers derive the flag from all the blocks they render.
+    from ..engines.blank import check_blank
+
+    nb = check_blank(repo, res, "C10-BLANK", min_classes=25)
+    res.stats["blank_claims_checked"] = nb
     return res
 
 
